@@ -126,10 +126,17 @@ def replay(case) -> dict:
         pos = np.asfortranarray(pos.astype(np.float32))       # e.g. np.array([zs, ys, xs]).T: column-major, already float32
     if n == 0:       # an empty table still has its feature columns
         f0 = _features(cfg["feats"], 1, rng)
-        mol = Molecules(np.zeros((0, 3)), None, features=None if f0 is None else f0.clear())
+        intended = None if f0 is None else f0.clear()
+        mol = Molecules(np.zeros((0, 3)), None, features=intended)
     else:
-        mol = Molecules(pos, _rotations(cfg["rots"], n, rng), features=_features(cfg["feats"], n, rng))
-    ev = dict(id=str(case["_i"]), via=cfg["via"], suffix=cfg["suffix"], prec=cfg["prec"], cols=list(mol.features.columns),
+        intended = _features(cfg["feats"], n, rng)
+        mol = Molecules(pos, _rotations(cfg["rots"], n, rng), features=intended)
+    if cfg.get("prep") == "inplace" and n > 0:
+        # history before saving: the table was shifted IN PLACE, by plain Python floats and by a float64 array (what is saved is
+        # the table as it stands now)
+        mol.translate([0.5, -0.25, 1.0], copy=False)
+        mol.translate_internal(np.array([[0.125, 0.0, -0.5]] * n, dtype=np.float64), copy=False)
+    ev = dict(id=str(case["_i"]), via=cfg["via"], suffix=cfg["suffix"], prec=cfg["prec"], cols=([] if intended is None else list(intended.columns)),
               header=[], stored_as="", rows=_rows(mol), back=[], err="", cols_back=[])
     tmp = tempfile.mkdtemp(prefix="c13-", dir=str(engine.WORK))
     path = os.path.join(tmp, "mole" + cfg["suffix"])
@@ -181,7 +188,7 @@ def run(rep: engine.Report, tier: str, seed: int):
     if not cases:
         raise engine.MachineryError("MC_C13 emitted nothing")
     budget = 1500 if tier == "quick" else len(cases)
-    sel = engine.stratified_sample(cases, lambda c: (c["cfg"]["via"], c["cfg"]["suffix"], c["cfg"]["prec"], c["cfg"]["rots"], c["cfg"]["feats"], c["cfg"]["layout"], c["cfg"]["n"] == 3), budget, seed)
+    sel = engine.stratified_sample(cases, lambda c: (c["cfg"]["via"], c["cfg"]["suffix"], c["cfg"]["prec"], c["cfg"]["rots"], c["cfg"]["feats"], c["cfg"]["layout"], c["cfg"]["n"] == 3, c["cfg"]["n"] == 0, c["cfg"]["prep"]), budget, seed)
     for i, c in enumerate(sel):
         c["_i"], c["_seed"] = i, seed * 100003 + i
     results = engine.parallel_replay("harness.props.c13", "replay", sel)
@@ -216,7 +223,7 @@ def replay_file(path: str) -> int:
 
 
 def selftest() -> int:
-    case = dict(_i=0, _seed=3, cfg=dict(n=3, lattice="d4", rots="rot24", feats="mixed", prec=4, via="csv", suffix=".csv", layout="c"))
+    case = dict(_i=0, _seed=3, cfg=dict(n=3, lattice="d4", rots="rot24", feats="mixed", prec=4, via="csv", suffix=".csv", layout="c", prep="none"))
     ev = replay(case)["events"]
     _, good = engine.validate_trace("Trace_Serial", ev, tag="self")
     bad_ev = json.loads(json.dumps(ev))
